@@ -3862,9 +3862,16 @@ def partitioned(arrays, highlevel=True, behavior=None):
         layout = ak.operations.convert.to_layout(
             array, allow_record=False, allow_other=False
         )
-        total_length += len(layout)
-        partitions.append(layout)
-        stops.append(total_length)
+        if isinstance(layout, ak.partition.PartitionedArray):
+            # already partitioned: splice its pieces in
+            for part in layout.partitions:
+                total_length += len(part)
+                partitions.append(part)
+                stops.append(total_length)
+        else:
+            total_length += len(layout)
+            partitions.append(layout)
+            stops.append(total_length)
 
     out = ak.partition.IrregularlyPartitionedArray(partitions, stops)
     return ak._util.maybe_wrap(
